@@ -108,6 +108,10 @@ pub struct Traffic {
     pub probes_after_ns: Option<u64>,
     /// exact packets to submit at the first application turn (chan, mode, len)
     pub script: Vec<(u8, Mode, usize)>,
+    /// 0 = independent draws; 1 = "reliable runs": one Reliable packet followed by a run of
+    /// non-Reliable packets whose length is drawn from boundary values of the parent-lead fields
+    /// (126..129, 254..257, ...); 2 = "uniform fragments": every packet has the same fragment count
+    pub pattern: u8,
 }
 
 #[derive(Clone, Debug)]
@@ -308,6 +312,7 @@ pub struct Sim<'s> {
     pinned_since_ns: [Option<u64>; 2],
     verbose: bool,
     heap_before: i64,
+    run_left: [u32; 2],
 }
 
 macro_rules! uflow_call {
@@ -395,6 +400,7 @@ impl<'s> Sim<'s> {
             pinned_since_ns: [None, None],
             verbose,
             heap_before,
+            run_left: [0, 0],
         }
     }
 
@@ -726,8 +732,35 @@ impl<'s> Sim<'s> {
                 if self.sides[i].sent_packets >= tr.total {
                     break;
                 }
+                if tr.pattern == 1 {
+                    // reliable runs
+                    if self.run_left[i] == 0 {
+                        let rng = &mut self.app_rng[i];
+                        self.run_left[i] = *rng.pick(&[126u32, 127, 128, 129, 130, 254, 255, 256, 257, 60, 300]) + 1;
+                        let chan = tr.channels[0];
+                        let len = rng.range(4, 40) as usize;
+                        if !self.submit_one(i, chan, Mode::Reliable, len, false) {
+                            return false;
+                        }
+                    } else {
+                        let rng = &mut self.app_rng[i];
+                        let chan = if rng.chance(0.7) { tr.channels[0] } else { *rng.pick(&tr.channels) };
+                        let mode = *rng.pick(&[Mode::Unreliable, Mode::Unreliable, Mode::Persistent]);
+                        let len = rng.range(4, 62) as usize;
+                        if !self.submit_one(i, chan, mode, len, false) {
+                            return false;
+                        }
+                    }
+                    self.run_left[i] -= 1;
+                    continue;
+                }
                 let rng = &mut self.app_rng[i];
-                let (chan, mode, len, amb) = if rng.chance(tr.amb_p) {
+                let (chan, mode, len, amb) = if tr.pattern == 2 {
+                    // uniform fragments: same shape for every packet (same channel, same fragment count)
+                    let nf = 2 + (self.scn.seed % 3) as usize;
+                    let len = (nf - 1) * MAX_FRAGMENT_SIZE + 1 + rng.below((MAX_FRAGMENT_SIZE - 1) as u64) as usize;
+                    (tr.channels[0], Self::pick_mode(rng, &tr.mode_w), len.min(tr.max_len), false)
+                } else if rng.chance(tr.amb_p) {
                     let mode = if tr.amb_reliable { Mode::Reliable } else if rng.chance(0.5) { Mode::Unreliable } else { Mode::Persistent };
                     (tr.channels[0], mode, rng.below(4) as usize, true)
                 } else {
